@@ -543,6 +543,7 @@ func (ospf *OSPFv2) DecodeFromBytes(data []byte, df gopacket.DecodeFeedback) err
 	if len(data) < 24 {
 		return fmt.Errorf("Packet too smal for OSPF Version 2")
 	}
+	ospf.Content = nil
 
 	ospf.Version = uint8(data[0])
 	ospf.Type = OSPFType(data[1])
@@ -663,6 +664,7 @@ func (ospf *OSPFv3) DecodeFromBytes(data []byte, df gopacket.DecodeFeedback) err
 	if len(data) < 16 {
 		return fmt.Errorf("Packet too smal for OSPF Version 3")
 	}
+	ospf.Content = nil
 
 	ospf.Version = uint8(data[0])
 	ospf.Type = OSPFType(data[1])
